@@ -14,7 +14,7 @@ ID = "C20"
 META = {
     "technique": "runtime monitoring: the real DataClient driven against a fake paged transport that logs every request and evaluates the filters it receives; yielded ids, request log and parsed datetimes checked against the server-side truth and an independent time-zone database",
     "design_ref": "DESIGN.md section 6 C20",
-    "level_text": "exploration over enumerated server paging behaviours (0..n documents x page-size caps x empty pages in the middle / at the end x extra link keys x time-series mode) and query-argument combinations; exactly-once/in-order delivery, next-link following, first-request parameters, filter semantics and time conversion judged on every scenario; 1e5 (quick) http_date/parse_http_date round trips over 12 zones incl. DST gaps and folds; pytz / zoneinfo (fold) / fixed-offset / UTC datetimes with microseconds; chains of over 1000 pages; half of the calls leave options at their documented defaults unmentioned; stand-in transport with params=/Session()/raise_for_status()",
+    "level_text": "exploration over enumerated server paging behaviours (0..n documents x page-size caps x empty pages in the middle / at the end x extra link keys x time-series mode) and query-argument combinations; exactly-once/in-order delivery, next-link following, first-request parameters, filter semantics and time conversion judged on every scenario; 1e5 (quick) http_date/parse_http_date round trips over 12 zones incl. DST gaps and folds; pytz / zoneinfo (fold) / fixed-offset / UTC datetimes with microseconds; chains of over 1000 pages; half of the calls leave options at their documented defaults unmentioned; stand-in transport with params=/Session()/raise_for_status(); filters in python-like and MongoDB-JSON syntax carrying format / template characters",
     "level_note": "the fake transport replaces data_client.requests; an audit hook proves no socket was opened (otherwise inconclusive); no transport errors are injected because the statement defines no behaviour for them; zone offsets are checked against the stdlib zoneinfo database, independent of pytz",
 }
 LEVEL = "exploration"
@@ -397,15 +397,21 @@ def _run_invalid(obs):
         fake = FakeRequests([], cap=10)
         with Installed(fake):
             c = dc.DataClient("t", "https://fake.invalid/api/v1/")
-            for call in ("get_sessions", "get_sessions_by_time"):
+            # every entry point that takes a site name, each asked twice on the same client (a refusal must not wear off)
+            for call in ("get_sessions", "get_sessions_by_time", "count_sessions", "get_sessions", "count_sessions", "get_sessions_by_time"):
+                if not hasattr(c, call):
+                    continue
                 try:
                     r = getattr(c, call)(site)
-                    list(r)
+                    if hasattr(r, "__iter__") and not isinstance(r, (str, bytes)):
+                        list(r)
                     obs.violate("invalid_site_accepted", f"{call}({site!r}) did not raise")
                 except Exception:
                     obs.ev("invalid_site_rejections")  # rejected; the error class is the library's choice
+                    obs.ev("invalid_site_rejections:" + call)
                 if fake.log:
                     obs.violate("request_before_site_validation", f"{call}({site!r}) sent {fake.log[0]['url']}")
+                    break
     obs.nontrivial()
     obs.evals = 12
 
